@@ -84,4 +84,10 @@ CLAIMS = {
         "note": TB + "Texts in neither must-set (63-byte labels, wire 254..255, bytes >= 128, control characters) are not judged on their verdict.",
         "technique": "TLC model checking of a TLA+ converter machine against the declarative statement + TLC trace validation of conversions and read-backs",
     },
+    "C11": {
+        "text": "TLC model-checks the walk-with-deletions machine (spec/Walk.tla) for all sections of 0..4 records, every deletion subset, OPT at every position and both readers, in the code's restart-from-section-start design and in a continue-after-delete design: in bounds, no deleted record yielded again, every survivor yielded, section = survivors in order, bounded number of yields, termination under weak fairness; the pinned tree's OPT-skipping defect is a negative control. Every such walk (sections of 0..4 records, thorough 0..6, in answer / authority / additional, OPT at every position, compressed and pointer-free, with and without OPT included, every deletion subset, plus the question) is executed on the real library with a second delete after each first one, and TLC validates the recorded walk: each yield designates a live record of the current bytes, deletions remove exactly that record, second delete = void record with nothing touched, survivors all yielded, final section = survivors with matching count and absent when empty, C08's predicate after every deletion.",
+        "design_ref": "DESIGN.md section 5, C11",
+        "note": TB + "The order in which survivors are re-yielded after a deletion is not compared.",
+        "technique": "TLC model checking (safety + liveness) of a TLA+ walk machine + TLC trace validation of exhaustively enumerated walks on the real library",
+    },
 }
